@@ -191,7 +191,7 @@ def run(ctx, V):
         V.count("A-got-208" if 208 in codes else "A-not-busy")
         if "dropped" in sc.tags: V.count("dropped-client")
         if "D" in sc.tags["roles"]: V.count("stalled-client")
-    C06.correspond(ctx, V, n=150 if ctx.tier == "quick" else 4000)
+    C06.correspond(ctx, V, n=300 if ctx.tier == "quick" else 6000)
 
 
 def replay(ctx, V, path):
